@@ -42,6 +42,7 @@ func readCells(path string) ([]Cell, error) {
 	}
 	defer fh.Close()
 	var out []Cell
+	seen := map[string]bool{} // a cell whose outcome the model leaves open is printed once per outcome
 	sc := bufio.NewScanner(fh)
 	sc.Buffer(make([]byte, 1<<20), 1<<26)
 	for sc.Scan() {
@@ -57,6 +58,10 @@ func readCells(path string) ([]Cell, error) {
 			c.Off = []string{}
 		}
 		sort.Strings(c.Off)
+		if seen[key(c)] {
+			continue
+		}
+		seen[key(c)] = true
 		out = append(out, c)
 	}
 	return out, sc.Err()
@@ -237,10 +242,11 @@ func (r *runner) execState(s *sim.Env, root int, cells []Cell) {
 	for _, c := range hook {
 		e := s.Branch()
 		app := f.appID(c.App)
-		f.armHook(e, c.Hook)
+		// controls first (shutdown needs a block for its price snapshot), then the trigger, then the hook alone
 		if err := f.ApplyControls(e, app, c.Breaker, c.Esm); err != nil {
 			panic(fmt.Sprintf("hook controls %+v: %v", c, err))
 		}
+		f.armHook(e, c.Hook)
 		pre, vpre := e.Digest(), f.HookViewOf(e, app)
 		res := f.runHook(e, c.Hook)
 		post, vpost := e.Digest(), f.HookViewOf(e, app)
@@ -276,7 +282,7 @@ func Main(args []string) int {
 	r := &runner{f: f, lg: lg}
 	for k := 0; k <= *states; k++ {
 		s := f.E.Branch()
-		var ops []string
+		ops := []string{}
 		if k > 0 {
 			ops = f.RandomPrefix(s, sim.NewRng(*seed*1000+int64(k)), *steps)
 		}
